@@ -538,7 +538,7 @@ def check_literal_length(run, ix):
     chunking helper."""
     run.rule('L-R1', floor=5, desc='digit strings of a literal reach int() only in bounded pieces')
     n = 0
-    for rel in (LIBMPF, LIBMPI):
+    for rel in (LIBMPF, LIBMPI, 'mpmath/ctx_mp_python.py'):
         for f in list(ix.module(rel).funcs.values()):
             kinds = None
             for c in _walk_own(f.node):
@@ -549,6 +549,18 @@ def check_literal_length(run, ix):
                 if kinds is None:
                     kinds = StrKinds(f.node)
                 k = kinds.of(c.args[0])
+                # under `type(v) in int_types` / `isinstance(v, int_types)` the operand is an integer, whatever the name
+                # holds on other paths
+                p_ = c
+                while p_ is not f.node and k in ('S', 'L'):
+                    par_ = getattr(p_, '_parent', None)
+                    if par_ is None:
+                        break
+                    if isinstance(par_, ast.If) and any(p_ is b or any(p_ is y for y in ast.walk(b)) for b in par_.body) and \
+                            norm(par_.test).replace(' ', '') in ('type(%s)inint_types' % norm(c.args[0]),
+                                                                 'isinstance(%s,int_types)' % norm(c.args[0])):
+                        k = 'I'
+                    p_ = par_
                 if k not in ('S', 'L'):
                     if k == 'C':
                         run.ok('L-R1', '%s: %s converts a single character' % (f.qualname, norm(c)))
